@@ -84,7 +84,12 @@ class Projection:
             if e["t"] >= self.t_stop:
                 break
             ev = e["ev"]
-            if ev in ENV_EVENTS:
+            if ev == "cluster_event" and e.get("op") == "add_partitions":
+                # a metadata change reaches the members with their next metadata refresh: the environment's action
+                # lasts until then (the refresh makes the leader ask for a rejoin - not a step of the quiet model)
+                age = max([c.get("metadata_max_age_ms", 2000) for c in self.sc["consumers"]] or [2000]) / 1000.0
+                qi, qt = k, max(qt, e["t"] + age + 0.3)
+            elif ev in ENV_EVENTS:
                 qi, qt = k, max(qt, e["t"])
             elif ev == "request" and e.get("fault"):
                 qi, qt = k, max(qt, e["t"] + (e["fault"].get("delay") or 0.0))
@@ -302,7 +307,14 @@ RESULT_RE = None
 
 def check_converge(ck: Check):
     import re
+    # the convergence clause now has a theorem: replace the older trusted-base line of c06.py
+    ck.trusted[:] = [t for t in ck.trusted if not t.startswith("convergence is decided by a monitor")]
     ck.trusted += [
+        "convergence clause: theorems c06_converged_closed / c06_quiet_progress / c06_quiet_converges / "
+        "c06_quiet_schedule_exists on model/C06_Converge.v (every inv_b state, every number of members, every schedule of "
+        "quiet steps); the per-member facts are checked for every value of the finite member view by vm_compute "
+        "(proof/C06_conv_checks.v, C06_conv_progress.v); the monitor on the simulated runs stays as the independent "
+        "statement of the property on the real consumers",
         "model/C06_Converge.v: quiet-period LTS written by hand after harness/simkit/groupcoord.py (coordinator) and "
         "group_coordinator.py (member skeleton: which request follows which); member reactions to reply codes are the "
         "translated dispatch chains (tie T); tied to the real consumers by acceptance of the quiet suffix of every "
